@@ -88,7 +88,7 @@ def gen_config(rng):
         n = rng.choice([65000, 65535, 65536, 65537, 70000, 200000])
         texts[rng.choice(["global", "local"])] += ["[alias]", "\tlong = " + "x" * n]
     for scope in ("system", "global", "local"):
-        if rng.random() < 0.6:
+        if rng.random() < (0.3 if scope == "system" else 0.6):       # often a refgroup entry is the very first one git lists
             texts[scope] = foreign_lines(rng) + texts[scope]
         if rng.random() < 0.3:
             texts[scope] += foreign_lines(rng)
@@ -205,6 +205,16 @@ def run(ctx):
                 elif l.startswith(b"  "):
                     marks[l[2:]] = False
             dist["bare_refgroup_entries"] = dist.get("bare_refgroup_entries", 0) + sum(1 for k, v in recs if k.startswith(b"refgroup.") and k.count(b".") == 1)
+            # git writing to its stderr while it lists the configuration (tracing switched on by the caller's environment or by
+            # the configuration itself) is no part of the listing: the same report
+            for tenv in ({"GIT_TRACE": "1"}, {"GIT_TRACE_SETUP": "1", "GIT_TRACE2": "1"}):
+                rct, outt, errt = S.run_sizer(ctx["bins"]["sizer"], cwd, ["--json", "--no-progress", "--show-refs"], env=dict(env, **tenv))
+                res.case(("trace", raw, tuple(sorted(tenv))), True)
+                if rct != rc or outt != out:
+                    res.violations.append(vlib.Violation("the report changes when git traces to stderr (%s)" % ", ".join(sorted(tenv)),
+                                                         {"local": texts["local"], "global": texts["global"], "system": texts["system"], "command": texts["command"], "environment": tenv},
+                                                         expected={"rc": rc, "stdout": out[:300].decode("latin1")},
+                                                         observed={"rc": rct, "stdout": outt[:300].decode("latin1"), "stderr": errt[-300:].decode("latin1")}))
             defs = []
             for sym in syms:
                 ents = []
